@@ -875,6 +875,43 @@ func (g *G) Stmt(depth int) ast.Node {
 		}
 		return ast.If{Cond: g.Expr(Bool, depth-1), Then: ret}
 	}
+	if g.O.Faults > 0 && r.Chance(1, 10) {
+		// a condition that is not a boolean, around bodies of every weight (a literal compiles to no code at all)
+		g.O.Faults--
+		g.cls("fault:condition")
+		var cond ast.Node
+		switch r.Intn(4) {
+		case 0:
+			cond = ast.IntLit{V: int64(r.Intn(3))}
+		case 1:
+			cond = g.Expr(Int, depth-1)
+		case 2:
+			cond = ast.StrLit{V: "true"}
+		default:
+			cond = ast.ArrayLit{Elems: []ast.Node{ast.BoolLit{V: true}}}
+		}
+		body := func() ast.Node {
+			switch r.Intn(4) {
+			case 0:
+				return ast.IntLit{V: int64(r.Intn(9))}
+			case 1:
+				if vs, _ := g.varsOf(Int); len(vs) > 0 {
+					return ast.Name{N: vs[r.Intn(len(vs))].Name}
+				}
+				return ast.StrLit{V: "k"}
+			case 2:
+				return g.Expr(Int, depth-1)
+			}
+			return g.inner(depth - 1)
+		}
+		switch r.Intn(4) {
+		case 0, 1:
+			return ast.If{Cond: cond, Then: body()}
+		case 2:
+			return ast.If{Cond: cond, Then: body(), Else: body()}
+		}
+		return ast.While{Cond: cond, Body: body()}
+	}
 	if s != nil && g.O.Generators && depth > 0 && r.Chance(1, 16) {
 		if sl, ok := g.searchLoop(depth); ok {
 			return sl
@@ -1379,5 +1416,13 @@ func (g *G) Helpers() []ast.Node {
 			ast.Name{N: "r"}}}}},
 	}
 	g.Globals = append(g.Globals, Var{Name: "tclob", T: FunOf(Int, Int)}, Var{Name: "tloop", T: FunOf(Int, Int)})
+	if g.R.Chance(1, 3) {
+		// a built-in name rebound to an ordinary function that uses the temp register: a call through that
+		// name is a call like any other (the session does not use the real built-in)
+		nm := []string{"read", "aton"}[g.R.Intn(2)]
+		defs = append(defs, ast.Assign{Name: nm, Value: ast.FuncLit{Params: []string{"n"}, Body: ast.Binary{Op: "-", L: ast.Binary{Op: "+", L: ast.Binary{Op: "*", L: n, R: ast.IntLit{V: 1}}, R: ast.IntLit{V: 7}}, R: ast.IntLit{V: 7}}}})
+		g.Globals = append(g.Globals, Var{Name: nm, T: FunOf(Int, Int)})
+		g.O.Faults = 0 // the planted faults call aton
+	}
 	return defs
 }
